@@ -87,17 +87,20 @@ type CallObs struct {
 
 // World is one run's system under simulation.
 type World struct {
-	S          *core.Sched
-	Net        *simhttp.Net
-	Sc         *Scenario
-	Obs        []*CallObs
-	byID       map[string]*CallObs
-	handlers   [][4]http.Handler
-	clients    map[string]*connect.Client[Msg, Msg]
-	algos      []*algo
-	pools      *pools
-	poolStats  poolStats
-	recoverErr func(o *CallObs, v any) error
+	S         *core.Sched
+	Net       *simhttp.Net
+	Sc        *Scenario
+	Obs       []*CallObs
+	byID      map[string]*CallObs
+	handlers  [][4]http.Handler
+	clients   map[string]*connect.Client[Msg, Msg]
+	algos     []*algo
+	pools     *pools
+	poolStats poolStats
+
+	buildingClient bool
+	faultAssigned  bool
+	recoverErr     func(o *CallObs, v any) error
 }
 
 //go:norace
@@ -132,6 +135,15 @@ func procName(h int, k Kind) string {
 
 func (w *World) newAlgo(name string) *algo {
 	a := &algo{name: name}
+	if f := w.Sc.CompFault; f != nil {
+		side := 0
+		if w.buildingClient {
+			side = 1
+		}
+		if side == w.Sc.CompFaultSide {
+			a.fault = *f // every algorithm of that side fails its k-th such operation once
+		}
+	}
 	w.algos = append(w.algos, a)
 	return a
 }
@@ -228,6 +240,8 @@ func (w *World) client(p *CallPlan) *connect.Client[Msg, Msg] {
 		return c
 	}
 	cfg := &w.Sc.Clients[p.Client]
+	w.buildingClient = true
+	defer func() { w.buildingClient = false }()
 	var opts []connect.ClientOption
 	switch cfg.Proto {
 	case PGRPC:
